@@ -47,6 +47,10 @@ type caEcdhEvidence struct {
 }
 
 func selectChipAuthParams(doc *document.Document) (*ChipAuthParams, error) {
+	if doc == nil || doc.Mf.Lds1.Dg14 == nil || doc.Mf.Lds1.Dg14.SecInfos == nil {
+		return nil, fmt.Errorf("[selectChipAuthParams] DG14 is missing")
+	}
+
 	secInfos := doc.Mf.Lds1.Dg14.SecInfos
 
 	caInfo, caAlgInfo, algInferred, err := resolveCAInfo(secInfos)
